@@ -87,6 +87,40 @@ pub fn gen(tier: &str, seed: u64) -> Vec<String> {
         let h = consistent_history(&mut r, &keys, n_ev, &[1, 2, 3, 5, 10], 30);
         lines.push(mk_kline("KAN", false, &cfg, &with_repeats(&mut r, h, 1, 2)));
     }
+    // (1b) sequence mode (outside the kanata-level model): a pending sequence keeps its keys away from
+    // the OS in two of the three input modes; an OS repeat must not be forwarded for them
+    for mode in ["hidden-suppressed", "hidden-delay-type", "visible-backspaced"] {
+        for always in [false, true] {
+            let cfg = format!(
+                "(defcfg sequence-input-mode {mode} sequence-timeout 100{})\n(defvirtualkeys v1 z)\n(defseq v1 (a b))\n(defsrc s a b c)\n(deflayer l0 sldr a b c)\n",
+                if always { " sequence-always-on yes" } else { "" }
+            );
+            for hold in [5u32, 40, 150] {
+                let mut h = vec![];
+                if !always {
+                    h.push(KEv::L(HEv::Press(0, code("s"))));
+                    h.push(KEv::L(HEv::Tick(5)));
+                    h.push(KEv::L(HEv::Release(0, code("s"))));
+                    h.push(KEv::L(HEv::Tick(5)));
+                }
+                h.push(KEv::L(HEv::Press(0, code("a"))));
+                h.push(KEv::L(HEv::Tick(hold)));
+                h.push(KEv::Rep(code("a")));
+                h.push(KEv::L(HEv::Tick(10)));
+                h.push(KEv::Rep(code("a")));
+                h.push(KEv::L(HEv::Tick(10)));
+                h.push(KEv::L(HEv::Release(0, code("a"))));
+                h.push(KEv::L(HEv::Tick(5)));
+                h.push(KEv::L(HEv::Press(0, code("c"))));
+                h.push(KEv::L(HEv::Tick(20)));
+                h.push(KEv::Rep(code("c")));
+                h.push(KEv::L(HEv::Tick(10)));
+                h.push(KEv::L(HEv::Release(0, code("c"))));
+                h.push(KEv::L(HEv::Tick(200)));
+                lines.push(mk_kline("KAN", false, &cfg, &h));
+            }
+        }
+    }
     // (2) whole grammar incl. layers, tap-hold, tap-dance, one-shot, fork, switch, chords, unmod
     let n2 = if thorough { 25000 } else { 2500 };
     for i in 0..n2 {
